@@ -307,3 +307,16 @@ Section GenOrder.
     cbn [omap]. rewrite gen_order_src_agree. unfold gen_order_decide. cbn [negb]. destruct ot2; reflexivity.
   Qed.
 End GenOrder.
+
+(* ---- generate_dependent_dispatch: the two decisions that pick the strategy, as regenerated from recode.py ---- *)
+From OvldV Require Import Model.Dep Proofs.LeafTactics.
+
+Lemma keyable_agree : forall distinct nkeyed nfeat, keyable_src distinct nkeyed nfeat = keyable_decide distinct nkeyed nfeat.
+Proof.
+  intros distinct nkeyed nfeat.
+  first [reflexivity
+        | unfold keyable_src, keyable_decide; split_ifs; to_prop; try reflexivity; exfalso; lia].
+Qed.
+
+Lemma final_choice_agree : forall haskey exclusive, final_src haskey exclusive = final_choice haskey exclusive.
+Proof. intros haskey exclusive. first [reflexivity | destruct haskey, exclusive; reflexivity]. Qed.
